@@ -333,6 +333,33 @@ def shard(args):
                         pass
         except Exception as e:  # noqa
             out["violations"].append({"signature": f"C16:guards-raise:{type(e).__name__}", "detail": str(e)[:200], "replay": {"spec": spec, "ops": list(ops)}})
+        # a link assigned with a value read from another object (`job_1.server = job_2.server`), then moved again: the
+        # first target must be used by exactly the objects that still point to it
+        try:
+            with watchdog(30):
+                if not link_state_problems(live):
+                    sp_ = live.spec
+                    pairs = [(a, b) for a in sorted(sp_["jobs"]) for b in sorted(sp_["jobs"]) if a != b and sp_["jobs"][a]["server"] != sp_["jobs"][b]["server"]
+                             and sp_["servers"][sp_["jobs"][a]["server"]].get("cls", "Server") == sp_["servers"][sp_["jobs"][b]["server"]].get("cls", "Server")]
+                    if pairs:
+                        a, b = rng.choice(pairs)
+                        orig_srv, borrowed = sp_["jobs"][a]["server"], sp_["jobs"][b]["server"]
+                        seq = [{"op": "setlink", "kind": "jobs", "name": a, "attr": "server", "target": borrowed, "via_wrapper": True},
+                               {"op": "setlink", "kind": "jobs", "name": a, "attr": "server", "target": orig_srv}]
+                        out["methods"]["borrowed-link"] = out["methods"].get("borrowed-link", 0) + 1
+                        for k_, o_ in enumerate(seq):
+                            st_, err_ = live.apply(o_)
+                            if st_ != "ok":
+                                break
+                            ops.append(o_)
+                            bad_ = link_state_problems(live)
+                            if bad_:
+                                out["violations"].append({"signature": f"C16:{bad_[0][0]}:{'borrowed-link' if k_ == 0 else 'move-after-borrowed-link'}",
+                                                          "detail": f"after {a}.server = {'%s.server' % b if k_ == 0 else orig_srv}: {bad_[0][1]}",
+                                                          "replay": {"spec": spec, "ops": list(ops)}})
+                                break
+        except Exception as e:  # noqa
+            out["violations"].append({"signature": f"C16:borrowed-link-raises:{type(e).__name__}", "detail": str(e)[:200], "replay": {"spec": spec, "ops": list(ops)}})
         # a draft container that holds the same object twice, created next to the system and deleted again:
         # its members are used by exactly what used them before
         try:
